@@ -13,7 +13,7 @@ for sid in sys.argv[1:]:
     assert sh(f'git -C /repo worktree add -q --detach {wt} HEAD').returncode == 0
     try:
         assert sh(f'git -C {wt} apply {d}/patch.diff').returncode == 0
-        env = dict(os.environ, PYTHONPATH=wt, OMP_NUM_THREADS='3', MKL_NUM_THREADS='3')
+        env = dict(os.environ, PYTHONPATH=wt, OMP_NUM_THREADS='2', MKL_NUM_THREADS='2')
         xml = f'/tmp/junit_{sid}.xml'
         r = sh(f'cd {wt} && /venv/bin/python -m pytest -ra -q -p no:cacheprovider --timeout=900 --continue-on-collection-errors --junitxml={xml}', env=env)
         c = sh(f'/verif/tools_compare_baseline.py {xml}')
